@@ -10,6 +10,7 @@ from tools.lib import gen as G
 from tools.lib import graphs as GR
 from tools.lib import impl as I
 from tools.lib import proofs as P
+from tools.lib import reduce_suite as R
 
 LEVEL = "proof"
 
@@ -210,6 +211,12 @@ def run(run: C.Run):
     k4_trees(run, 40 if thorough else 18)
     k5_schedules(run, rng, 300 if thorough else 50, 6 if thorough else 2)
     k5_scans(run, rng, 300 if thorough else 60, 6 if thorough else 3)
+    # deep / wide trees with ties: every split_every must give the eager answer (not sent to the Coq model)
+    big = []
+    for c in G.tie_heavy_cases(rng, 80 if thorough else 14):
+        nb = len(c["chunks"][0])
+        big += [dict(c, split_every=k) for k in sorted({2, 4, max(2, nb)})]
+    R.check_reduce_cases(run, big, "C03", lambda case: True, vs_eager=True, model=False)
     if (not proofs_ok or any(not o[1] for o in run.obligations)) and not run.violations:
         run.violation({"property": "C03", "kind": "proof obligation / correspondence no longer checks",
                        "failed": P.failed_obligations(run)}, nofail=True, tag="obligation")
